@@ -16,7 +16,8 @@ Verdict rules (the property text decides):
   2^-1060 x (the same sum with every Gaussian factor replaced by 1, command 103 with nog=1), covers Gaussian
   factors that fall into the subnormal range of double precision (absolute error up to 2^-1074 BEFORE the
   factor is multiplied by polynomial, norm and coefficient, which can be 1e20 and more; found by the thorough
-  tier at alpha r^2 ~ 727, see DESIGN "Corrections").  A refusal of such a request is a violation.
+  tier at alpha r^2 ~ 727, see DESIGN "Corrections").  A refusal of such a request is a violation, except
+  back-end "direct" with total order > 2 (all orders <= 2), where a refusal is accepted as well.
 * back-end "direct" with some order > 2, or a back-end name the code does not know: the model answers
   `rejected`.  The implementation passes if it raises (any exception) OR if it returns the exact derivative
   (the request was honoured after all); it fails only if it answers with different numbers.
@@ -124,6 +125,11 @@ def eval_case(model, case):
     tag = "%s total order %d%s %s" % (bname, total, " T" if T is not None else "",
                                       "cart" if "s" not in types else ("sph" if "c" not in types else "mixed"))
     if st != "ok":
+        if bname == "direct" and total > 2:
+            # every order <= 2 but total order > 2: the back-end can honour it (and density.py relies on that),
+            # but the property does not forbid a stricter back-end: a refusal is accepted, wrong numbers are not
+            return {"detail": None, "tag": "direct total order>2, all<=2: refused (accepted either way)",
+                    "nontrivial": True}
         return {"detail": {"kind": "refused-valid-request", "impl": impl}, "tag": tag, "nontrivial": True}
     scale = _scales(model, bsx, pts, orders, T)
     d = _cmp(impl, res, scale)
